@@ -87,7 +87,7 @@ func c04Snapshot(inv *Invoice) *c04Snap {
 
 func H_C04_Fixpoint() {
 	// quick: one line, tax-exclusive prices; thorough: 1..2 lines, tax-included prices by choice
-	o := skOpts{rule: skRule("rule"), cur: skCurrency(), lines: 1, fixedAtCur: false, rich: true, include: vrt.Thorough()}
+	o := skOpts{rule: skRule("rule"), cur: skCurrency(), lines: 1, fixedAtCur: false, rich: true, include: vrt.Thorough(), qexp: true}
 	if vrt.Thorough() {
 		o.lines = skLines()
 	}
